@@ -366,6 +366,8 @@ def write_evidence(mod, prop, tier, verif_seed, records, corpus_run, det, report
     steps = handovers = 0
     sim_time = 0.0
     obs = set()
+    sched_digests = set()
+    commit_orders = 0
     for r in records:
         for k, v in (r.get("counters") or {}).items():
             counters[k] = counters.get(k, 0) + v
@@ -377,6 +379,11 @@ def write_evidence(mod, prop, tier, verif_seed, records, corpus_run, det, report
         handovers += r.get("sim_handovers", 0)
         sim_time += r.get("sim_time_s", 0.0)
         obs.add(r.get("obs_digest"))
+        ex = r.get("extra") or {}
+        for d in ex.get("schedule_digests", []):
+            if len(sched_digests) < 2_000_000:
+                sched_digests.add(d)
+        commit_orders += int(ex.get("commit_orders", 0))
     samples = []
     for r in records:
         if r.get("scenario") is not None and len(samples) < 3:
@@ -402,6 +409,9 @@ def write_evidence(mod, prop, tier, verif_seed, records, corpus_run, det, report
             "simulated_handovers": handovers,
             "simulated_time_s": sim_time,
             "distinct_observation_digests": len(obs),
+            "distinct_schedule_digests": len(sched_digests),
+            "distinct_commit_orders_summed_over_scenarios": commit_orders,
+            "interleaving_measure": "a schedule digest is the SHA-256 of the full decision sequence (worker, quantum, biased hand-over coin flips) of one simulated parfor / GPU launch set; a commit order is the order in which output slots were completed",
             "fault_and_reach_counters_fired": dict(sorted(counters.items())),
             "discarded": discarded,
             "components": getattr(mod, "COMPONENTS", {}),
